@@ -14,8 +14,11 @@
 //     (Model.DecodersCases.check) and compares class, summary and allocation.
 //   - independent oracle = the property itself: the class must be Ok or Err,
 //     the call must answer within 2 s and allocate at most 64 MiB + 1000 x input.
-//     Failures that match a listed finding (exact decoder, class and input
-//     condition) are reported with OracleFailKnown, anything else with OracleFail.
+//     A failure that matches the one listed open finding (tools.ParseACM: the
+//     third-party front end fit.ParseSACMData allocates what the header Size
+//     field announces) is reported with OracleFailKnown, anything else --
+//     including every failure class that was a finding before the repairs
+//     a533fa8..9c860bb -- with OracleFail.
 package main
 
 import (
@@ -220,124 +223,62 @@ func (h *H) call(req request) (rep reply, status string, detail string) {
 // ---------------------------------------------------------------- known findings
 
 const (
-	kReadTXT     = "C15-D14-ReadTXT-short-image"
-	kToolsTXT    = "C15-tools-TXT-short-image"
-	kACMSize     = "C15-LookupACMSize-short-header"
-	kDecrypt     = "C15-DecryptPrivKey-short-data"
-	kLCPCustom   = "C15-LCP-custom-size-panic"
-	kLCPAlloc    = "C15-LCP-alloc-32bit-size"
-	kACMAlloc    = "C15-ACM-alloc-size-fields"
+	// repaired (KNOWN_FINDINGS.json "fixed"): the witnesses are still probed, a
+	// probe that reproduces is an ordinary violation
+	kReadTXT   = "C15-D14-ReadTXT-short-image"    // a533fa8
+	kToolsTXT  = "C15-tools-TXT-short-image"      // 84f1c2a
+	kACMSize   = "C15-LookupACMSize-short-header" // f913973
+	kDecrypt   = "C15-DecryptPrivKey-short-data"  // 4423a4c
+	kLCPCustom = "C15-LCP-custom-size-panic"      // 6dfa3ec
+	kLCPAlloc  = "C15-LCP-alloc-32bit-size"       // 3c5bd57
+	kACMAlloc  = "C15-ACM-alloc-size-fields"      // 9c860bb (the part inside the repository: ParseACMInfo)
+	// open: third-party code behind tools.ParseACM
+	kFianoAlloc = "C15-ParseACM-fiano-size-alloc"
+
 	allocBase    = 64 << 20
 	allocPerByte = 1000
 
 	maxViolationsPerDecoder = 25
 )
 
-// classifyKnown decides whether a property failure is exactly one of the listed findings.
+// classifyKnown decides whether a property failure is exactly the listed open finding.
 func classifyKnown(req request, class string, msg string, alloc uint64) string {
-	n := len(req.In1)
-	switch req.Dec {
-	case dReadTXTRegs:
-		if class == "Panic" && strings.Contains(msg, "slice bounds out of range") && n < 0x400 {
-			return kReadTXT
-		}
-	case dReadReg:
-		k := int(req.Aux[0])
-		if class == "Panic" && strings.Contains(msg, "slice bounds out of range") && readSlices[k] && n < readOffsets[k] {
-			return kReadTXT
-		}
-	case dTXTRegs:
-		if class == "Panic" && strings.Contains(msg, "slice bounds out of range") && n < 0x330 {
-			return kToolsTXT
-		}
-	case dACMStatus:
-		if class == "Panic" && strings.Contains(msg, "slice bounds out of range") && n < 0x328 {
-			return kToolsTXT
-		}
-	case dLookupACMSize:
-		if class == "Panic" && strings.Contains(msg, "slice bounds out of range") && n < 32 {
-			return kACMSize
-		}
-	case dDecryptFrame:
-		if class == "Panic" && strings.Contains(msg, "slice bounds out of range") && n < 12 && len(req.In2) > 0 {
-			return kDecrypt
-		}
-	case dPolicyData:
-		if class == "Panic" && strings.Contains(msg, "makeslice: len out of range") && hasShortCustomHeader(req.In1) {
-			return kLCPCustom
-		}
-		if class == "Alloc" && fieldExplainsAlloc(req.Dec, req.In1, msg, alloc) {
-			return kLCPAlloc
-		}
-	case dACMInfo, dParseACM:
-		if class == "Alloc" && fieldExplainsAlloc(req.Dec, req.In1, msg, alloc) {
-			return kACMAlloc
-		}
+	if req.Dec == dParseACM && class == "Alloc" && fianoSizeExplainsAlloc(req.In1, msg, alloc) {
+		return kFianoAlloc
 	}
 	return ""
 }
 
-// signature of C15-LCP-custom-size-panic: somewhere in the input there is an
-// element header (Size, Type) with Type = 3 (custom) and Size < 32
-func hasShortCustomHeader(in []byte) bool {
-	for o := 0; o+8 <= len(in); o++ {
-		if binary.LittleEndian.Uint32(in[o:]) < 32 && binary.LittleEndian.Uint32(in[o+4:]) == 3 {
-			return true
-		}
-	}
-	return false
-}
-
 var oomBlock = regexp.MustCompile(`cannot allocate (\d+)-byte block`)
 
-// signature of the two allocation findings: the block the runtime could not
-// get, or the total allocated by a call that returned, is what ONE 32-bit
-// little-endian word of the input asks for -- word x 48 (parsePolicyList2
-// elements), word - 32 (custom element data), word x 16 / x 24 (ACM chipset /
-// processor lists), word x 4 (ACM header Size, fiano) -- once, or twice for
-// make() plus the scratch buffer of binary.Read.  Any other way of allocating
-// out of proportion (e.g. a loop that keeps appending) is not a listed finding.
-func fieldExplainsAlloc(dec int, in []byte, msg string, total uint64) bool {
-	type cand struct{ mul, sub uint64 }
-	var cs []cand
-	switch dec {
-	case dPolicyData:
-		cs = []cand{{48, 0}, {1, 32}}
-	case dACMInfo, dParseACM:
-		cs = []cand{{16, 0}, {24, 0}, {4, 0}}
+// signature of C15-ParseACM-fiano-size-alloc: fit.ParseSACMData (fiano, third
+// party) reads the user area with a buffer of Size*4 - len(header) bytes, Size
+// being the 32-bit header field at offset 24.  The block the runtime could not
+// get (reported rounded up to whole 4 MiB arena chunks or 8 KiB pages), or the
+// total allocated by a call that returned ("unable to read user area"), is what
+// THAT field asks for, once or twice (buffer growth).  Any other way of
+// allocating out of proportion -- in particular the ID lists of ParseACMInfo,
+// bounded since 9c860bb -- is not the listed finding.
+func fianoSizeExplainsAlloc(in []byte, msg string, total uint64) bool {
+	if len(in) < 28 {
+		return false
 	}
-	var block uint64
+	want := uint64(binary.LittleEndian.Uint32(in[24:])) * 4
+	if want < 16<<20 {
+		return false
+	}
 	if m := oomBlock.FindStringSubmatch(msg); m != nil {
-		block, _ = strconv.ParseUint(m[1], 10, 64)
-	} else if strings.HasPrefix(msg, "child died") {
+		block, _ := strconv.ParseUint(m[1], 10, 64)
+		return block+8192 >= want && block < want+(4<<20)
+	}
+	if strings.HasPrefix(msg, "child died") {
+		return false
+	}
+	if !strings.Contains(msg, "unable to read user area") {
 		return false
 	}
 	slack := uint64(1<<20 + allocPerByte*len(in))
-	for o := 0; o+4 <= len(in); o++ {
-		v := uint64(binary.LittleEndian.Uint32(in[o:]))
-		for _, c := range cs {
-			if v < c.sub {
-				continue
-			}
-			want := (v - c.sub) * c.mul
-			if want < 16<<20 {
-				continue
-			}
-			if block != 0 {
-				// the runtime reports the request rounded up to whole 4 MiB arena chunks
-				if (want+(4<<20)-1)/(4<<20)*(4<<20) == block || (want+8191)/8192*8192 == block {
-					return true
-				}
-				continue
-			}
-			for _, k := range []uint64{1, 2} {
-				if total >= k*want && total <= k*want+slack {
-					return true
-				}
-			}
-		}
-	}
-	return false
+	return total+8192 >= want && total <= 2*want+slack
 }
 
 // ---------------------------------------------------------------- harness state
@@ -560,7 +501,8 @@ func (h *H) run(kind string, dec int, aux []int64, in1, in2 []byte, recipe strin
 	h.one(kind, request{Dec: dec, Aux: aux, In1: in1, In2: in2}, recipe)
 }
 
-// probe runs a fixed witness of a known finding and reports whether it still reproduces.
+// probe runs a fixed witness of a finding (open or repaired) and reports whether it reproduces:
+// for an open finding that is a KNOWN-FINDING line, for a repaired one a violation.
 func (h *H) probe(id string, req request, wantClass string, what string) {
 	rep, status, _ := h.call(req)
 	got := ""
@@ -795,7 +737,7 @@ func synthPolData() map[string][]byte {
 	return m
 }
 
-// hostile LCP inputs: the known findings and their neighbourhood
+// hostile LCP inputs: the witnesses of the repaired findings and their neighbourhood
 func hostilePolData() map[string][]byte {
 	m := map[string][]byte{}
 	for _, sz := range []uint32{0, 1, 15, 16, 17, 28, 31, 32, 33, 40, 0xFFFF, 0x10000, 0x04000000, 0x7FFFFFFF, 0x80000000, 0xFFFFFFFF} {
@@ -914,7 +856,7 @@ func main() {
 	q := func(a, b int) int { return c.Scale(a, b) }
 	sha3Flag := []int64{1}
 
-	// ---- probes: fixed witnesses of the known findings
+	// ---- probes: fixed witnesses of the repaired findings (must not reproduce) and of the open one
 	h.probe(kReadTXT, request{Dec: dReadTXTRegs, In1: make([]byte, 16)}, "Panic", "registers.ReadTXTRegisters(make([]byte,16))")
 	h.probe(kToolsTXT, request{Dec: dTXTRegs, In1: make([]byte, 16)}, "Panic", "tools.ParseTXTRegs(make([]byte,16))")
 	h.probe(kACMSize, request{Dec: dLookupACMSize, In1: make([]byte, 16)}, "Panic", "tools.LookupACMSize(make([]byte,16))")
@@ -926,6 +868,9 @@ func main() {
 		w := smallACM(sinit, 0x600)
 		binary.LittleEndian.PutUint32(w[0x4f0:], 0x08000000) // Chipsets.Count
 		h.probe(kACMAlloc, request{Dec: dACMInfo, In1: w}, "Alloc", "(*ACM).ParseACMInfo on a 1536-byte ACM with Chipsets.Count=0x08000000")
+		w = clone(sinit)
+		binary.LittleEndian.PutUint32(w[24:], 0x3FFFFFFF) // header Size
+		h.probe(kFianoAlloc, request{Dec: dParseACM, In1: w}, "Alloc", fmt.Sprintf("tools.ParseACM on pkg/tools/tests/sinit_acm.bin (%d bytes) with the header Size field := 0x3FFFFFFF (fit.ParseSACMData asks for 4 GiB)", len(sinit)))
 	}
 
 	// ---- 1. LCP policy
